@@ -67,15 +67,24 @@ class Engine:
     def read_field(self, st, obj_ref, cls, attr):
         """obj_ref: z3 Int; returns SV"""
         key, kind, fcls = self.schema.field(cls, attr)
+        fx = None
+        if isinstance(fcls, tuple):
+            fcls, fx = fcls
         if kind == "val":
             t = z3.Select(self.field_array(st, key), obj_ref)
-            return self.schema.refine(SV("val", t, cls=fcls))
+            return self.schema.refine(SV("val", t, cls=fcls, x=fx))
         if kind == "set":
             t = z3.Select(self.field_array(st, key), obj_ref)
 
             def wb(st2, new, key=key, obj_ref=obj_ref):
                 st2.heap[key] = z3.Store(self.field_array(st2, key), obj_ref, new.t)
             return SV("set", t, wb=wb, cls=fcls)
+        if kind == "seq":
+            t = z3.Select(self.field_array(st, key), obj_ref)
+
+            def wb(st2, new, key=key, obj_ref=obj_ref):
+                st2.heap[key] = z3.Store(self.field_array(st2, key), obj_ref, new.t)
+            return SV("seq", t, wb=wb, cls=fcls)
         if kind in ("list", "bytes"):
             items = z3.Select(self.field_array(st, key + "#items"), obj_ref)
             n = z3.Select(self.field_array(st, key + "#len"), obj_ref)
@@ -102,6 +111,12 @@ class Engine:
         elif kind == "set":
             v = self.as_set(value, st)
             st.heap[key] = z3.Store(self.field_array(st, key), obj_ref, v.t)
+        elif kind == "seq":
+            if value.k == "list" and z3.is_int_value(z3.simplify(value.x)) and z3.simplify(value.x).as_long() == 0:
+                value = SV("seq", z3.Empty(z3.SeqSort(Val)))
+            if value.k != "seq":
+                raise Unsupported("seq field assigned %s" % value.k)
+            st.heap[key] = z3.Store(self.field_array(st, key), obj_ref, value.t)
         elif kind in ("list", "bytes"):
             v = self.as_list(value, st)
             st.heap[key + "#items"] = z3.Store(self.field_array(st, key + "#items"), obj_ref, v.t)
@@ -113,6 +128,15 @@ class Engine:
             st.heap[key + "#map"] = z3.Store(self.field_array(st, key + "#map"), obj_ref, value.t)
         else:
             raise Unsupported("field kind " + kind)
+
+    def fresh_object(self, st, clsname):
+        """Allocate a new object: a reference that was not alive before."""
+        r = fresh("new_" + clsname.replace("$", "").replace(".", "_"), Int)
+        alive = self.field_array(st, "$alive")
+        st.assume(z3.Not(z3.Select(alive, r)))
+        st.heap["$alive"] = z3.Store(alive, r, True)
+        st.heap["$kind"] = z3.Store(self.field_array(st, "$kind"), r, self.schema.class_id(clsname))
+        return r
 
     # ------------------------------------------------------------------ conversions
     def as_int(self, sv, st, what="operand"):
@@ -218,6 +242,8 @@ class Engine:
             return sv.t != EmptySet
         if k in ("list", "bytes"):
             return sv.x > 0
+        if k == "seq":
+            return z3.Length(sv.t) > 0
         if k == "dict":
             return sv.x[0] != EmptySet
         if k == "tuple":
@@ -461,7 +487,7 @@ class Engine:
     # ------------------------------------------------------------------ assignment
     def assign(self, tgt, val, st):
         if isinstance(tgt, ast.Name):
-            if val.k in ("set", "list", "dict", "bytes"):
+            if val.k in ("set", "list", "dict", "bytes", "seq"):
                 name = tgt.id
                 val = SV(val.k, val.t, cls=val.cls, x=val.x,
                          wb=lambda st2, new, name=name: st2.env.__setitem__(
@@ -656,6 +682,9 @@ class Engine:
         if k == "list":
             i = fresh("i", Int)
             return [Bag([i], z3.And(0 <= i, i < it.x), self.schema.refine(SV("val", z3.Select(it.t, i), cls=it.cls)))]
+        if k == "seq":
+            i = fresh("i", Int)
+            return [Bag([i], z3.And(0 <= i, i < z3.Length(it.t)), self.schema.refine(SV("val", it.t[i], cls=it.cls)))]
         if k == "range":
             a, b, s = it.x
             i = fresh("i", Int)
@@ -1043,6 +1072,9 @@ class Engine:
             ci = obj.x
             if ci.is_enum and attr in ci.enum_members:
                 return self.schema.enum_member(self.prog, ci, attr)
+            if ci.is_enum and attr in ci.enum_auto:
+                return SV("val", VEnum(z3.IntVal(self.schema.class_id(ci.qual)), z3.IntVal(ci.enum_auto[attr])),
+                          cls=ci.qual, x="enum")
             sub = self.prog.classes.get(ci.qual + "." + attr)
             if sub is not None:
                 return SV("cls", x=sub)
@@ -1078,12 +1110,15 @@ class Engine:
                     return SV("boundmethod", x=(obj, m, ci))
                 if ci.is_enum and attr == "value":
                     return sv_int(enum_(to_val(obj)))
+                sf = self.schema.static_field(self, obj, attr)
+                if sf is not None:
+                    return sf
                 r = self.as_ref(obj, st, "receiver of .%s" % attr)
-                return self.read_field(st, r, obj.cls, attr)
+                return self.schema.post_read(obj, attr, self.read_field(st, r, obj.cls, attr))
             sp = self.schema.get_attr_special(self, obj, attr, st)
             if sp is not None:
                 return sp
-        if k in ("set", "list", "dict", "bytes", "str", "tuple", "gen"):
+        if k in ("set", "list", "dict", "bytes", "str", "tuple", "gen", "seq"):
             return SV("boundbuiltin", x=(obj, attr))
         if k == "val" and attr == "value" and obj.x == "enum":
             return sv_int(enum_(obj.t))
@@ -1293,7 +1328,7 @@ class Engine:
             return self.schema.call_builtin_method(self, obj, name, args, kwargs, st, node)
         if k == "super":
             raise Unsupported("super() value call")
-        raise Unsupported("call of %s" % k)
+        raise Unsupported("call of %s (cls=%s)" % (k, fv.cls))
 
     def call_method(self, obj, ci, name, args, kwargs, st):
         m = ci.lookup(name)
